@@ -2334,6 +2334,11 @@ class Exec:
             senv = st.env
             st.env, self.mi, self.cur_class, self.fn_imports, _ = saved
         outs = [(s, 'return' if k == 'next' else k, p) for s, k, p in outs]
+        if len(outs) > 1:
+            # outcomes on dead paths (a guard the caller's state excludes, e.g. an argument check that raises) do not count
+            live = [o for o in outs if self.feasible(o[0], 2000)]
+            if live:
+                outs = live
         if len(outs) != 1:
             # several outcomes: merge is only supported when all return scalars under exclusive conditions
             rets = [(s, p) for s, k, p in outs if k == 'return']
